@@ -94,6 +94,9 @@ func runC01(c *eng.Ctx) {
 	ruleEncodeFailureIsAnError(c)
 	c.Floor(2)
 
+	c.Rule("R01.10", "K5")
+	ruleScannersReturnFreshBuffers(c)
+
 }
 
 func ruleOffsetIdentity(c *eng.Ctx) {
